@@ -1,5 +1,6 @@
 """Calls: spec vocabulary, contract application (modular), inlining, methods."""
 import ast
+import re
 import z3
 
 from .core import (Val, NONE, vint, vreal, vbool, vtuple, to_real, to_int, truth, State, Unsupported,
@@ -341,7 +342,17 @@ def sp_transpose(eng, node, st):
     return models.transpose(eng, st, eng.ev(node.args[0], st))
 
 
-SPEC_BUILTINS = dict(psum=sp_psum, rsum=sp_rsum, norm=sp_norm, sqrt=sp_sqrt, matmul=sp_matmul, copyof=sp_copyof, transpose=sp_transpose, eigh_of=sp_eigh_of, forall=sp_forall, exists=sp_exists, implies=sp_implies, ite=sp_ite, old=sp_old,
+def sp_cnt(eng, node, st):
+    """cnt(xs, k, p): number of q < p with xs[q] == k"""
+    from . import models
+    xs = eng.ev(node.args[0], st)
+    k = to_int(eng.ev(node.args[1], st))
+    p = to_int(eng.ev(node.args[2], st))
+    a = eng.list_arr(st, xs)
+    return vint(models.cnt(eng, st, a)(a, k, p))
+
+
+SPEC_BUILTINS = dict(cnt=sp_cnt, psum=sp_psum, rsum=sp_rsum, norm=sp_norm, sqrt=sp_sqrt, matmul=sp_matmul, copyof=sp_copyof, transpose=sp_transpose, eigh_of=sp_eigh_of, forall=sp_forall, exists=sp_exists, implies=sp_implies, ite=sp_ite, old=sp_old,
                      fresh=sp_fresh, same=sp_same, unchanged=sp_unchanged, isnone=sp_isnone, real=sp_real,
                      eqcontent=sp_eqcontent, let=sp_let, alloc_now=sp_alloc)
 
@@ -521,6 +532,10 @@ def coerce(eng, st, v, kind, what):
         return vint(to_int(v))
     if is_ref_kind(kind) and v.k == 'none':
         return Val(kind, z3.IntVal(0))
+    if kind == 'real' and v.k == 'none':
+        # Optional[float] fields: None is modelled as an unspecified real (documented assumption)
+        eng.assumed.add("None stored in a float-typed field is modelled as an unspecified real")
+        return vreal(z3.Real(fresh_name('none_as_real')))
     if is_ref_kind(kind) and is_ref_kind(v.k) and kind[0] == v.k[0]:
         if kind[0] == 'list' and elem_tag(kind[1]) == elem_tag(v.k[1]):
             return Val(kind, v.t)
@@ -624,8 +639,23 @@ def havoc_target(eng, st, tgt):
                 st.heap.wr(key, v.t, z3.Const(fresh_name('hf_' + f), sort_of(fk)))
         elif k[0] == 'set':
             st.heap.wr('set:', v.t, z3.Const(fresh_name('hset'), z3.ArraySort(I, B)))
+        elif k[0] == 'ddict':
+            st.heap.wr('el:ref', v.t, z3.Const(fresh_name('hdd'), z3.ArraySort(I, I)))
         else:
             raise ContractError("cannot havoc %r" % (k,))
+    elif tgt[0] == 'each':
+        # field `f` of every object in a list: fresh field map that agrees with the old one off the list
+        lst, cls, f = tgt[1], tgt[2], tgt[3]
+        key, fk = eng.field_key(cls, f)
+        old = st.heap.get(key)
+        new = z3.Const(fresh_name('hfm_' + f), old.sort())
+        n = eng.list_len(st, lst)
+        la = eng.list_arr(st, lst)
+        r, q = z3.Int(fresh_name('r')), z3.Int(fresh_name('q'))
+        w = z3.Function(fresh_name('each_w'), I, I)
+        st.assume(z3.ForAll([r], z3.Or(z3.And(0 <= w(r), w(r) < n, z3.Select(la, w(r)) == r),
+                                       z3.Select(new, r) == z3.Select(old, r)), patterns=[z3.Select(new, r)]))
+        st.heap.set(key, new)
     else:
         v, f = tgt[1], tgt[2]
         key, fk = eng.field_key(v.k[1], f)
@@ -636,6 +666,13 @@ def eval_assign_targets(eng, clauses, env, st):
     """assigns clauses -> list of ('ref', Val) / ('field', Val, name)."""
     out = []
     for src in clauses:
+        mm = re.match(r'^(.*)\[\*\]\.(\w+)$', src.strip())
+        if mm:
+            lst = eval_clause(eng, mm.group(1), env, st)
+            if not (isinstance(lst.k, tuple) and lst.k[0] == 'list' and isinstance(lst.k[1], tuple) and lst.k[1][0] == 'obj'):
+                raise ContractError("assigns %r: not a list of objects" % src)
+            out.append(('each', lst, lst.k[1][1], mm.group(2)))
+            continue
         node = parse_clause(src)
         if isinstance(node, ast.Attribute):
             basev = eng.ev(node.value, spec_state(st, env))
@@ -653,6 +690,8 @@ def eval_assign_targets(eng, clauses, env, st):
 def target_key(eng, tgt):
     if tgt[0] == 'field':
         return eng.field_key(tgt[1].k[1], tgt[2])[0]
+    if tgt[0] == 'each':
+        return eng.field_key(tgt[2], tgt[3])[0]
     return None
 
 
@@ -695,7 +734,13 @@ def apply_contract(eng, c, mod, fdef, args, kwargs, st, node):
     old_heap = st.heap.copy()
     targets = eval_assign_targets(eng, c.assigns, env, st)
     for tgt in targets:
-        eng.check_store(st, tgt[1].t, target_key(eng, tgt), node, 'call:' + short)
+        if tgt[0] == 'each':
+            q = z3.Int(fresh_name('q'))
+            sub = st.copy()
+            sub.assume(z3.And(0 <= q, q < eng.list_len(st, tgt[1])))
+            eng.check_store(sub, z3.Select(eng.list_arr(st, tgt[1]), q), target_key(eng, tgt), node, 'call:' + short)
+        else:
+            eng.check_store(st, tgt[1].t, target_key(eng, tgt), node, 'call:' + short)
         havoc_target(eng, st, tgt)
     if c.allocates:
         na = z3.Int(fresh_name('alloc'))
